@@ -158,7 +158,7 @@ rt_full!(rt_full_vec_unit, Vec<()>, 3, 48, 5);
 rt_full!(rt_full_vec_z8, Vec<Z8>, 2, 48, 5);
 // @h rt_full_d1 props=C01,C05,C06,C07 tier=thorough kind=bounded bound="len<=2" vars="v:D1{u8,Vec<u16>,Option<u32>}, pos0<16" fns="derive:D1"
 rt_full!(rt_full_d1, D1, 2, 48, 4);
-// @h rt_full_gm props=C01,C05,C06,C07 tier=thorough kind=bounded bound="len<=2" vars="v:GM<u16>{Vec<u16>,u16}, pos0<16" fns="derive:GM"
+// @h rt_full_gm props=C01,C05,C06,C07 tier=quick kind=bounded bound="len<=2" vars="v:GM<u16>{Vec<u16>,u16}, pos0<16" fns="derive:GM"
 rt_full!(rt_full_gm, GM<u16>, 2, 48, 4);
 
 // ---------------------------------------------------------------- really placed streams: slice cursor and io::Read reader
